@@ -2053,3 +2053,77 @@ Lemma QcS_abs_def : forall x : QcS, sabs x = if sltb x s0 then - x else x.
 Proof.
   intro x. unfold sabs, sltb, sopp, s0; simpl. unfold qc_abs, qc_ltb. simpl. rewrite Z.mul_1_r. reflexivity.
 Qed.
+
+(* ------------------------------------------------------------------ smoothed_aggr_emin: the filtered matrix *)
+Section EminFilter.
+Variable S : Scalar.
+Hypothesis Sft : Sfield S.
+Let Srt : Sring S := F_R Sft.
+Add Field SFieldEM : Sft.
+
+Definition emin_frow (i : nat) (D : S) (zr : list (nat * S * bool)) : row S :=
+  flat_map (fun e => if Nat.eqb (fst (fst e)) i then [(i, D)] else if (snd e : bool) then [fst e] else []) zr.
+
+Lemma emin_frow_off i D zr k : k <> i ->
+  rget (emin_frow i D zr) k
+  = fold_left (fun a e => if Nat.eqb (fst (fst e)) k && snd e then a + snd (fst e) else a) zr s0.
+Proof.
+  intro Hk. unfold emin_frow. induction zr as [|e zr IH]; [reflexivity|].
+  cbn [flat_map fold_left]. rewrite (rget_app Srt), IH.
+  destruct (Nat.eqb_spec (fst (fst e)) i) as [Ei|Ei].
+  - rewrite (rget_single Srt). replace (Nat.eqb i k) with false by (symmetry; apply Nat.eqb_neq; congruence).
+    replace (Nat.eqb (fst (fst e)) k) with false by (symmetry; apply Nat.eqb_neq; congruence). cbn [andb]. ring.
+  - destruct e as [[c v] b]. cbn [fst snd] in *. destruct b; cbn [andb].
+    + rewrite (rget_single Srt), andb_true_r. destruct (Nat.eqb c k).
+      * rewrite (fold_acc_AF S Sft k zr (s0 + v)). ring.
+      * ring.
+    + rewrite rget_nil, andb_false_r. ring.
+Qed.
+
+Lemma emin_frow_diag0 i D zr :
+  length (filter (fun e : nat * S * bool => Nat.eqb (fst (fst e)) i) zr) = 0%nat -> rget (emin_frow i D zr) i = s0.
+Proof.
+  unfold emin_frow. induction zr as [|e zr IH]; intro H; [reflexivity|]. cbn [flat_map filter] in *.
+  destruct (Nat.eqb_spec (fst (fst e)) i) as [Ei|Ei]; [simpl in H; discriminate|].
+  rewrite (rget_app Srt), IH by exact H. destruct (snd e).
+  - destruct e as [[c v] b]. cbn [fst snd] in *. rewrite (rget_single Srt).
+    replace (Nat.eqb c i) with false by (symmetry; apply Nat.eqb_neq; exact Ei). ring.
+  - rewrite rget_nil. ring.
+Qed.
+
+Lemma emin_frow_diag i D zr :
+  length (filter (fun e : nat * S * bool => Nat.eqb (fst (fst e)) i) zr) = 1%nat -> rget (emin_frow i D zr) i = D.
+Proof.
+  unfold emin_frow. induction zr as [|e zr IH]; intro H; [discriminate|]. cbn [flat_map filter] in *.
+  destruct (Nat.eqb_spec (fst (fst e)) i) as [Ei|Ei].
+  - simpl in H. injection H as H. rewrite (rget_app Srt), (rget_single Srt), Nat.eqb_refl.
+    fold (emin_frow i D zr). rewrite emin_frow_diag0 by exact H. ring.
+  - rewrite (rget_app Srt), IH by exact H. destruct (snd e).
+    + destruct e as [[c v] b]. cbn [fst snd] in *. rewrite (rget_single Srt).
+      replace (Nat.eqb c i) with false by (symmetry; apply Nat.eqb_neq; exact Ei). ring.
+    + rewrite rget_nil. ring.
+Qed.
+
+(* dense semantics of the filtered matrix and of its diagonal vector: A_F of the SA formula *)
+Lemma emin_filter_dense (A : crs S) st i k : i < nrows A ->
+  length (filter (fun e : nat * S * bool => Nat.eqb (fst (fst e)) i) (zip_row (nth i (rows A) []) (nth i st []))) = 1%nat ->
+  mget (fst (emin_filter A st)) i k = sa_AF A st i k /\ vget (snd (emin_filter A st)) i = sa_D A st i.
+Proof.
+  intros Hi Hd. unfold emin_filter. cbn [fst snd]. unfold mget, vget. cbn [rows].
+  set (F := fun ir : nat * row S =>
+     (flat_map (fun e : nat * S * bool => if Nat.eqb (fst (fst e)) (fst ir) then [(fst ir, sa_dia (fst ir) (zip_row (snd ir) (nth (fst ir) st [])))]
+                 else if (snd e : bool) then [fst e] else []) (zip_row (snd ir) (nth (fst ir) st [])),
+      sa_dia (fst ir) (zip_row (snd ir) (nth (fst ir) st [])))).
+  change (rget (nth i (map fst (map F (indexed (rows A)))) []) k = sa_AF A st i k /\
+          nth i (map snd (map F (indexed (rows A)))) s0 = sa_D A st i).
+  rewrite !map_map.
+  rewrite (nth_indep _ [] (fst (F (0%nat, [])))) by (rewrite map_length, indexed_length; exact Hi).
+  rewrite (nth_indep (map (fun x => snd (F x)) _) s0 (snd (F (0%nat, [])))) by (rewrite map_length, indexed_length; exact Hi).
+  rewrite (map_nth (fun x => fst (F x))), (map_nth (fun x => snd (F x))), nth_indexed by exact Hi.
+  unfold F. cbn [fst snd]. split; [|reflexivity].
+  fold (emin_frow i (sa_dia i (zip_row (nth i (rows A) []) (nth i st []))) (zip_row (nth i (rows A) []) (nth i st []))).
+  unfold sa_AF. destruct (Nat.eqb_spec i k) as [<-|Hne].
+  - rewrite emin_frow_diag by exact Hd. reflexivity.
+  - rewrite emin_frow_off by congruence. reflexivity.
+Qed.
+End EminFilter.
